@@ -17,32 +17,32 @@ ONE = N.num(1.0)
 
 def skeleton(ver, v):
     if ver == '2.0':
-        return N.mkgrid('2.0', [('gm', v['gmeta']), ('aa', N.MARKER)],
-                        [('n', [('cm', v['cmeta']), ('ab', N.MARKER)]), ('b', []), ('a', [('dis', ('str', 'C'))])],
+        return N.mkgrid('2.0', [('gM_1', v['gmeta']), ('aa', N.MARKER)],
+                        [('n', [('cm', v['cmeta']), ('ab', N.MARKER)]), ('colB2_x', []), ('a', [('dis', ('str', 'C'))])],
                         [(v['cell0'], N.NULL, ONE), (ONE, N.NULL, v['cell1'])])
     nested = N.mkgrid('3.0', [('nm', v['nmeta'])], [('x', [])], [(v['ncell'],)])
-    return N.mkgrid('3.0', [('gm', v['gmeta']), ('aa', N.MARKER)],
-                    [('n', [('cm', v['cmeta']), ('ab', N.MARKER)]), ('b', []), ('a', [('dis', ('str', 'C'))])],
+    return N.mkgrid('3.0', [('gM_1', v['gmeta']), ('aa', N.MARKER)],
+                    [('n', [('cm', v['cmeta']), ('ab', N.MARKER)]), ('colB2_x', []), ('a', [('dis', ('str', 'C'))])],
                     [(v['cell0'], ('list', (ONE, v['lelem'])), N.mkdict([('k', v['dval']), ('m', N.MARKER)])),
                      (nested, N.NULL, v['cell1'])])
 
 
 def assemble(hs, ver, o, absent):
     """The hszinc grid the skeleton denotes, built through the public API from hszinc values `o`."""
-    g = hs.Grid(version=ver, metadata={}, columns=[('n', [('cm', o['cmeta']), ('ab', hs.MARKER)]), ('b', []), ('a', [('dis', 'C')])])
-    g.metadata['gm'] = o['gmeta']
+    g = hs.Grid(version=ver, metadata={}, columns=[('n', [('cm', o['cmeta']), ('ab', hs.MARKER)]), ('colB2_x', []), ('a', [('dis', 'C')])])
+    g.metadata['gM_1'] = o['gmeta']
     g.metadata['aa'] = hs.MARKER
     if ver == '2.0':
-        r0 = {'n': o['cell0'], 'b': None, 'a': 1.0}
-        r1 = {'n': 1.0, 'b': None, 'a': o['cell1']}
+        r0 = {'n': o['cell0'], 'colB2_x': None, 'a': 1.0}
+        r1 = {'n': 1.0, 'colB2_x': None, 'a': o['cell1']}
     else:
         nested = hs.Grid(version='3.0', columns=['x'] if False else [('x', [])])
         nested.metadata['nm'] = o['nmeta']
         nested.append({'x': o['ncell']})
-        r0 = {'n': o['cell0'], 'b': [1.0, o['lelem']], 'a': {'k': o['dval'], 'm': hs.MARKER}}
-        r1 = {'n': nested, 'b': None, 'a': o['cell1']}
+        r0 = {'n': o['cell0'], 'colB2_x': [1.0, o['lelem']], 'a': {'k': o['dval'], 'm': hs.MARKER}}
+        r1 = {'n': nested, 'colB2_x': None, 'a': o['cell1']}
     if absent:
-        del r1['b']
+        del r1['colB2_x']
     g.append(r0)
     g.append(r1)
     return g
@@ -97,19 +97,19 @@ def exc_name(e):
 # independent one) -> compare neutral forms
 
 def flat_skeleton(ver, v):
-    return N.mkgrid(ver, [('gm', v['gmeta']), ('aa', N.MARKER)],
-                    [('n', [('cm', v['cmeta']), ('ab', N.MARKER)]), ('b', []), ('a', [('dis', ('str', 'C'))])],
+    return N.mkgrid(ver, [('gM_1', v['gmeta']), ('aa', N.MARKER)],
+                    [('n', [('cm', v['cmeta']), ('ab', N.MARKER)]), ('colB2_x', []), ('a', [('dis', ('str', 'C'))])],
                     [(v['cell0'], N.NULL, ONE), (ONE, N.NULL, v['cell1'])])
 
 
 def flat_assemble(hs, ver, o, absent):
-    g = hs.Grid(version=ver, metadata={}, columns=[('n', [('cm', o['cmeta']), ('ab', hs.MARKER)]), ('b', []), ('a', [('dis', 'C')])])
-    g.metadata['gm'] = o['gmeta']
+    g = hs.Grid(version=ver, metadata={}, columns=[('n', [('cm', o['cmeta']), ('ab', hs.MARKER)]), ('colB2_x', []), ('a', [('dis', 'C')])])
+    g.metadata['gM_1'] = o['gmeta']
     g.metadata['aa'] = hs.MARKER
-    r0 = {'n': o['cell0'], 'b': None, 'a': 1.0}
-    r1 = {'n': 1.0, 'b': None, 'a': o['cell1']}
+    r0 = {'n': o['cell0'], 'colB2_x': None, 'a': 1.0}
+    r1 = {'n': 1.0, 'colB2_x': None, 'a': o['cell1']}
     if absent:
-        del r1['b']
+        del r1['colB2_x']
     g.append(r0)
     g.append(r1)
     return g
@@ -135,22 +135,57 @@ def cat_for(ver, which):
     return CATS[key]
 
 
-def execute(hs, prop, fmt, oracle, ver, shape, multi, form, ents, absent):
+TRIMS = ['full', 'one-row', 'no-rows', 'one-col']
+
+
+def trim_neutral(n, trim):
+    _, ver, meta, cols, rows = n
+    if trim == 'one-row':
+        rows = rows[:1]
+    elif trim == 'no-rows':
+        rows = ()
+    elif trim == 'one-col':
+        cols = cols[:1]
+        rows = tuple(r[:1] for r in rows)
+    return ('grid', ver, meta, cols, rows)
+
+
+def trim_grid(hs, g, trim):
+    if trim == 'one-row':
+        del g[1:]
+    elif trim == 'no-rows':
+        del g[:]
+    elif trim == 'one-col':
+        first = list(g.column.keys())[0]
+        for name in list(g.column.keys())[1:]:
+            del g.column[name]
+        for r in g:
+            for k in list(r.keys()):
+                if k != first:
+                    del r[k]
+    return g
+
+
+def execute(hs, prop, fmt, oracle, ver, shape, multi, form, ents, absent, trim='full'):
     """One case.  -> (outcome summary, list of (symptom, sig-extra, detail))"""
     slots = SLOTS3 if (ver == '3.0' and shape == 'full') else SLOTS2
     mode = hs.MODE_ZINC if fmt == 'zinc' else hs.MODE_JSON
     nvals = {s: ents[s].n for s in slots}
-    expected = [skeleton(ver, nvals) if shape == 'full' else flat_skeleton(ver, nvals)]
+    expected = [trim_neutral(skeleton(ver, nvals) if shape == 'full' else flat_skeleton(ver, nvals), trim)]
     fails = []
     try:
         objs = {s: O.build(ents[s].n, hs, ents[s].hint) for s in slots}
         g = assemble(hs, ver, objs, absent) if shape == 'full' else flat_assemble(hs, ver, objs, absent)
+        g = trim_grid(hs, g, trim)
     except Exception as e:  # noqa
         return 'build-raised', [('grid-construction-raised', {'exc': exc_name(e)}, {'exc': repr(e)})]
     arg = g
     if multi == 2:
         arg = [g, second_grid(hs)]
         expected.append(SECOND)
+    elif multi == 3:                      # the payload grid is the SECOND grid of the document
+        arg = [second_grid(hs), g]
+        expected.insert(0, SECOND)
     try:
         text = hs.dump(arg, mode=mode)
     except Exception as e:  # noqa
@@ -163,7 +198,7 @@ def execute(hs, prop, fmt, oracle, ver, shape, multi, form, ents, absent):
         # the version-appropriate Remove spelling is part of both JSON properties (C02 and C06)
         try:
             jo = json.loads(text)
-            first = jo[0] if isinstance(jo, list) else jo
+            first = (jo[1] if multi == 3 else jo[0]) if isinstance(jo, list) else jo
             bad = '-:' if ver == '2.0' else 'x:'
             if _has_value(first, bad, top=True):
                 fails.append(('remove-spelled-for-other-version', {'spelling': bad}, detail))
@@ -198,7 +233,7 @@ def execute(hs, prop, fmt, oracle, ver, shape, multi, form, ents, absent):
             else:
                 observed = refjson.read(json.loads(text))
                 jo = json.loads(text)
-                if (multi == 2) != isinstance(jo, list):
+                if (multi >= 2) != isinstance(jo, list):
                     fails.append(('json-top-level-shape', {}, detail))
         except (refzinc.RefZincError, refjson.RefJsonError, ValueError) as e:
             detail['reference_reader'] = str(e)[:400]
@@ -240,36 +275,41 @@ def run_case(ch, st, prop, fmt, oracle, ver, shape, multi, form, which):
     slots = SLOTS3 if (ver == '3.0' and shape == 'full') else SLOTS2
     ents = {s: ch.choose(s, [DEFAULT] + cat) for s in slots}
     absent = ch.choose('absent', [False, True])
-    outcome, fails = execute(hs, prop, fmt, oracle, ver, shape, multi, form, ents, absent)
+    trim = ch.choose('trim', TRIMS)
+    if trim != 'full' and absent:
+        absent = False
+    outcome, fails = execute(hs, prop, fmt, oracle, ver, shape, multi, form, ents, absent, trim)
     if outcome.startswith('skip:'):
         st.skip(outcome[5:])
     devs = [(s, ents[s]) for s in slots if ents[s] is not DEFAULT]
     names = tuple((s, e.name) for s, e in devs)
-    st.case((ver, shape, multi, form, names, absent), nontrivial=bool(devs), outcome=(outcome, tuple(sorted(set(e.n[0] for _, e in devs)))),
+    st.case((ver, shape, multi, form, names, absent, trim), nontrivial=bool(devs), outcome=(outcome, tuple(sorted(set(e.n[0] for _, e in devs)))),
             sample={'ver': ver, 'skeleton': shape, 'grids': multi, 'input_form': form, 'slots': dict(names), 'absent_key': absent, 'outcome': outcome})
     if not fails:
         return
     # minimise: a failure with several deviations that already occurs with one of them alone is the
     # smaller case's finding (explored too, since exploration is downward closed)
-    ndev = len(devs) + (1 if absent else 0)
+    ndev = len(devs) + (1 if absent else 0) + (1 if trim != 'full' else 0)
     if ndev >= 2:
         singles = []
         for s, e in devs:
-            singles.append(({k: (e if k == s else DEFAULT) for k in slots}, False))
+            singles.append(({k: (e if k == s else DEFAULT) for k in slots}, False, 'full'))
         if absent:
-            singles.append(({k: DEFAULT for k in slots}, True))
-        for sents, sabs in singles:
-            _, sf = execute(hs, prop, fmt, oracle, ver, shape, multi, form, sents, sabs)
+            singles.append(({k: DEFAULT for k in slots}, True, 'full'))
+        if trim != 'full':
+            singles.append(({k: DEFAULT for k in slots}, False, trim))
+        for sents, sabs, strim in singles:
+            _, sf = execute(hs, prop, fmt, oracle, ver, shape, multi, form, sents, sabs, strim)
             if sf and sf[0][0] == fails[0][0]:
                 st.count('failures_subsumed_by_smaller_case')
                 return
     for symptom, extra, detail in fails:
-        sig = {'fmt': fmt, 'ver': ver, 'payloads': '|'.join(sorted(e.name for _, e in devs)) or '-',
+        sig = {'fmt': fmt, 'ver': ver, 'trim': trim, 'payloads': '|'.join(sorted(e.name for _, e in devs)) or '-',
                'kinds': '|'.join(sorted(e.n[0] for _, e in devs)) or '-'}
         sig.update({k: v for k, v in extra.items() if k != 'grid'})
         st.fail(symptom, sig,
                 {'prop': prop, 'fmt': fmt, 'oracle': oracle, 'ver': ver, 'shape': shape, 'multi': multi, 'form': form,
-                 'slots': {s: e.name for s, e in devs}, 'absent': absent},
+                 'slots': {s: e.name for s, e in devs}, 'absent': absent, 'trim': trim},
                 dict(detail, slots={s: e.name for s, e in devs}))
 
 
@@ -278,7 +318,7 @@ def replay_case(case, st):
     slots = SLOTS3 if (case['ver'] == '3.0' and case['shape'] == 'full') else SLOTS2
     ents = {s: C.BY_NAME[case['slots'][s]] if s in case['slots'] else DEFAULT for s in slots}
     outcome, fails = execute(hs, case['prop'], case['fmt'], case['oracle'], case['ver'], case['shape'], case['multi'],
-                             case['form'], ents, case['absent'])
+                             case['form'], ents, case['absent'], case.get('trim', 'full'))
     for symptom, extra, detail in fails:
         st.fail(symptom, dict(extra), case, detail)
 
@@ -392,14 +432,14 @@ def run_property(ctx, prop, fmt, oracle, module_name):
     if ctx.quick:
         plan = [('3.0', 'full', 1, 'text', 'full', 1), ('2.0', 'flat', 1, 'text', 'full', 1),
                 ('3.0', 'flat', 1, 'text', 'reps', 2), ('3.0', 'full', 1, 'text', 'tiny', 2),
-                ('2.0', 'flat', 2, forms[-1], 'reps', 1), ('3.0', 'full', 2, forms[-1], 'reps', 1)]
+                ('2.0', 'flat', 2, forms[-1], 'reps', 1), ('3.0', 'full', 2, forms[-1], 'reps', 1), ('3.0', 'flat', 3, 'text', 'reps', 1), ('2.0', 'flat', 3, forms[-1], 'tiny', 2)]
         if fmt == 'json':
             plan += [('3.0', 'full', 1, f, 'full', 1) for f in forms[1:]]
             plan += [('2.0', 'flat', 1, 'text', 'reps', 2), ('3.0', 'full', 1, 'text', 'reps', 2)]
     else:
         plan = [('3.0', 'full', 1, 'text', 'full', 1), ('2.0', 'flat', 1, 'text', 'full', 2),
                 ('3.0', 'flat', 1, 'text', 'full', 2), ('3.0', 'full', 1, 'text', 'reps', 2),
-                ('2.0', 'flat', 2, forms[-1], 'full', 1), ('3.0', 'full', 2, forms[-1], 'full', 1)]
+                ('2.0', 'flat', 2, forms[-1], 'full', 1), ('3.0', 'full', 2, forms[-1], 'full', 1), ('3.0', 'full', 3, 'text', 'full', 1), ('2.0', 'flat', 3, forms[-1], 'reps', 2)]
         plan += [('3.0', 'full', 1, f, 'full', 1) for f in forms[1:]]
         if fmt == 'json':
             plan += [('3.0', 'full', 1, 'text', 'full', 2)]
